@@ -133,6 +133,18 @@ func genC02(r *kit.RNG) *C01Scenario {
 			switch t.Kind {
 			case "nx-for-existing", "nx-retired-salt", "nodata-for-existing", "forge-unsigned", "wildcard-replay", "wildcard-replay-other-nsec", "wildcard-replay-forged-nsec":
 				t.Step = "answer"
+			case "nx-below-delegation":
+				t.Step = "referral"
+				t.Zone = parentOf(t.Zone)
+			case "ds-nodata-from-child":
+				t.Step = kit.Pick(r, []string{"ds", "ds", "answer", "any"})
+				// the parent's DS answers are replaced; pair it with forged unsigned data from the
+				// child, which is what a validator fooled into "insecure delegation" would accept
+				child := t.Zone
+				t.Zone = parentOf(t.Zone)
+				if r.Chance(0.7) {
+					sc.Tampers = append(sc.Tampers, C01Tamper{Zone: child, Kind: "forge-unsigned", Step: "any", FromOp: t.FromOp, ToOp: t.ToOp})
+				}
 			case "nods-for-secure":
 				t.Step = "referral"
 				// pair it with forged unsigned data from the child
@@ -245,7 +257,11 @@ func oracleC02(o *resOp, st *c02State) bool {
 	}
 	// existence / type truth
 	if negative && truth.Kind == "answer" {
-		res.Fail("C02/false-denial", "%s: the zone holds data for this name and type (%v), but the client was told there is none", o.ctx, authsim.RRKeys(truth.Answer, dns.TypeRRSIG))
+		hit := ""
+		for _, f := range o.fired {
+			hit += fmt.Sprintf(" [tampering %s hit the %s response of %s]", f.kind, f.step, f.zone)
+		}
+		res.Fail("C02/false-denial", "%s: the zone holds data for this name and type (%v), but the client was told there is none%s", o.ctx, authsim.RRKeys(truth.Answer, dns.TypeRRSIG), hit)
 		return false
 	}
 	if m.Rcode == dns.RcodeNameError && truth.Kind == "nodata" {
